@@ -191,6 +191,23 @@ def cond_truth(conds, v):
     return None
 
 
+def subst_val(v, old, new):
+    """replace every occurrence of the value `old` inside the expression tree v by `new`, re-folding constants"""
+    if v == old:
+        return new
+    if not isinstance(v, tuple) or not v:
+        return v
+    if v[0] == 'op' and len(v) == 5:
+        return mk_op(v[1], subst_val(v[2], old, new), subst_val(v[3], old, new), v[4])
+    if v[0] == 'not':
+        return mk_not(subst_val(v[1], old, new))
+    if v[0] == 'ne0':
+        return mk_ne0(subst_val(v[1], old, new))
+    if v[0] in ('s', 'c', 'f', 'str'):
+        return v
+    return tuple(subst_val(x, old, new) if isinstance(x, tuple) else x for x in v)
+
+
 def symbols(v, out=None):
     if out is None:
         out = set()
@@ -283,6 +300,7 @@ class Sim:
         self.depth = 0
         self.word_results = set()  # symbols produced by atomic reads
         self.word_paths = set()    # locations that have held such a symbol
+        self.last_widened = {}     # (loop header, location) -> symbol introduced by the last widening
 
     # ------------------------------------------------------------ choices
     def choose(self, n, tag):
@@ -304,6 +322,11 @@ class Sim:
         return show(p)
 
     def load(self, p, bits=64):
+        if p[0] == 'global' and p not in self.store and getattr(self, 'cur_fn', None) is not None:
+            # a namespace-scope / static constant read as an lvalue (e.g. an operand of a conditional lvalue)
+            cv = self.eng.tu_consts(self.cur_fn.get('tu')).get(p[1])
+            if cv is not None:
+                return C(cv, bits or 64)
         if p[0] in ('field', 'global', 'deref') and ('rd', p) not in self.store:
             self.store[('rd', p)] = True
             if getattr(self, 'cur_fn', None) is not None:
@@ -368,10 +391,10 @@ class Sim:
         k = n.get('k')
         if k == 'ref':
             i = n['id']
-            if i in self.vals:
-                return self.vals[i]
             if 'cv' in n:
                 return C(int(n['cv']), 64)
+            if i in self.vals:
+                return self.vals[i]
             e = self.cur_elems.get(i)
             if e is None:
                 raise AnalysisBroken('%s: reference to unknown CFG element %d' % (self.cur_fn['key'], i))
@@ -444,7 +467,7 @@ class Sim:
         if op == '&':
             return self.addr_of(self.lv_path(e))
         if op == '*':
-            return ('lv', self.deref(self.rv(e)), None)
+            return ('lv', self.deref(self.rv(e)), (n.get('rt') or {}).get('bits'))
         if op == '!':
             return mk_not(self.rv(e))
         if op == '~':
@@ -608,9 +631,63 @@ class Sim:
                 self.note_word(p, val)
                 self.store[p] = val
                 self.writes.append(p)
+                if not v.get('ref'):
+                    self.materialise_functor(p, val)
         return None
 
+    def functor_record(self, rec):
+        """(record name, operator()) if rec is a repository class with exactly one operator()"""
+        if not rec:
+            return None
+        recname = next((r for r in self.facts.records if r == rec or r.endswith('::' + rec)), None)
+        if recname is None:
+            return None
+        ops = [f for f in self.facts.functions.values() if f.get('record') == recname and f['short'] == 'operator()']
+        return (recname, ops[0]) if len(ops) == 1 else None
+
+    def materialise_functor(self, p, val):
+        """a local object of a repository functor class: run its constructor on the variable's storage so that later
+        member calls (operator() through std::ref, getters) see and update the same members"""
+        if not (isinstance(val, tuple) and val and val[0] in ('obj', 'initlist')):
+            return
+        rec = val[1] if val[0] == 'obj' else (val[2] if len(val) > 2 else None)
+        fr = self.functor_record(rec)
+        if fr is None:
+            return
+        recname, op = fr
+        ptr = ('addr', p)
+        if val[0] == 'obj':
+            ctor = self.facts.functions.get(val[2])
+            if ctor is not None and len(ctor['params']) == len(val[3]) and ctor.get('blocks'):
+                self._functor_via_ctor(op, ctor, val[3], ptr)
+                self.store[('functor_at', p)] = op['key']
+                return
+            if val[3]:
+                return
+        items = val[3] if val[0] == 'obj' else val[1]
+        for f, item in zip(self.facts.records[recname]['fields'], items):
+            self.store[('field', ptr, f['name'])] = item
+        self.store[('functor_at', p)] = op['key']
+
     def ev_return(self, n):
+        e = n.get('e')
+        if e is not None and e.get('k') == 'ref' and e['id'] in self.cur_elems:
+            e = self.cur_elems[e['id']]
+        if e is not None and e.get('k') == 'construct' and e.get('copy_or_move') and len(e.get('args') or []) == 1:
+            a = e['args'][0]
+            for _ in range(6):
+                if a.get('k') == 'cast':
+                    a = a['e']
+                elif a.get('k') == 'ref' and a['id'] in self.cur_elems:
+                    a = self.cur_elems[a['id']]
+                else:
+                    break
+            if a.get('k') == 'var' and a.get('scope') == 'local' and not a.get('isref'):
+                # `return local;` (copy elision / implicit move): the function's result is the local object itself
+                src = self.rv(self.ev(a))
+                if isinstance(src, tuple) and src and src[0] == 'obj':
+                    self.ret, self.ret_line, self.returned = src, n.get('line'), True
+                    return None
         v = self.rv(self.ev(n['e'])) if n.get('e') is not None else None
         self.ret = v
         self.ret_line = n.get('line')
@@ -649,6 +726,9 @@ class Sim:
             nv = self.rv(self.ev(args_nodes[1]))
             self.write(self.lv_path(x), nv, n.get('line'))
             return old
+        if name in ('std::ref', 'std::cref') and len(args_nodes) == 1:
+            # a reference wrapper is the address of its referent; binding it to a reference parameter yields the referent
+            return self.addr_of(self.lv_path(self.ev(args_nodes[0])))
         if name in ('std::bit_cast', 'std::move', 'std::forward', 'std::addressof', 'std::as_const'):
             x = self.ev(args_nodes[0])
             if name == 'std::bit_cast':
@@ -757,6 +837,11 @@ class Sim:
         callee = n.get('callee', '')
         # lambda call (inside a spin function instantiation)
         if op == '()' and callee.startswith('lambda@'):
+            lam = self.facts.functions.get(callee)
+            if lam is not None and lam.get('blocks') and self.depth < 5 and len(lam['params']) == len(argx) - 1 and not self.spin_depth:
+                # a lambda called by (an inlined helper of) the function under analysis: its body runs in this context
+                # (captures by reference are the enclosing function's own variables, `this` is the enclosing `this`)
+                return self.inline_call(lam, argx[1:], n)
             args = tuple(self.rv(a) for a in argx[1:])
             r = self.new_sym('ret:lambda')
             self.event({'kind': 'lambda_call', 'callee': callee, 'args': args, 'result': r, 'line': n.get('line')})
@@ -779,6 +864,14 @@ class Sim:
             self.event({'kind': 'call', 'callee': callee, 'name': 'operator' + op, 'record': rec, 'obj': opath,
                         'args': rest, 'result': r, 'line': n.get('line'), 'in_root': n.get('in_root'),
                         'const_method': n.get('const_method'), 'raw_args': tuple(argx[1:])})
+            if op == '=' and opath[0] == 'var' and len(argx) == 2:
+                # a local object that still has its default-constructed value takes over the value assigned to it
+                # (`Guard result{}; ... result = Guard{lock}; return result;`); nothing is dropped by the assignment
+                oldv, newv = self.store.get(opath), self.rv(argx[1])
+                if isinstance(oldv, tuple) and oldv and oldv[0] == 'obj' and oldv[3] == () and \
+                        isinstance(newv, tuple) and newv and newv[0] == 'obj' and newv[1] == oldv[1]:
+                    self.store[opath] = newv
+                    self.writes.append(opath)
             if op == '=':
                 return argx[0]
             return r
@@ -848,7 +941,27 @@ class Sim:
             base.update(op=m, orders=[self.order_of(a[1]) if len(a) > 1 else 'seq_cst'], value=vals[0] if vals else None)
             self.event(base)
             return None
-        if m in ('test_and_set', 'clear', 'is_lock_free'):
+        if m == 'test':
+            # std::atomic_flag::test == load
+            o = self.order_of(a[0]) if a else 'seq_cst'
+            r = self.new_sym('load@%d' % line, 1)
+            base.update(op='load', orders=[o], result=r, flag_op=m)
+            self.event(base)
+            return r
+        if m == 'test_and_set':
+            # std::atomic_flag::test_and_set == exchange(true)
+            o = self.order_of(a[0]) if a else 'seq_cst'
+            r = self.new_sym('exchange@%d' % line, 1)
+            base.update(op='exchange', orders=[o], value=C(1, 1), result=r, flag_op=m)
+            self.event(base)
+            return r
+        if m == 'clear':
+            # std::atomic_flag::clear == store(false)
+            o = self.order_of(a[0]) if a else 'seq_cst'
+            base.update(op='store', orders=[o], value=C(0, 1), flag_op=m)
+            self.event(base)
+            return None
+        if m in ('is_lock_free',):
             raise AnalysisBroken('%s:%s: atomic operation %s is not a recognised idiom' % (self.cur_fn['file'], line, m))
         raise AnalysisBroken('%s:%s: unknown atomic member %s' % (self.cur_fn['file'], line, m))
 
@@ -857,6 +970,9 @@ class Sim:
         """v is an object of a repository class with operator(): (key of operator(), pointer to a fresh copy of the
         object whose members hold the construction arguments)"""
         rec, items = None, None
+        if isinstance(v, tuple) and v and v[0] == 'addr' and ('functor_at', v[1]) in self.store:
+            # std::ref(functor object): the call operator works on the object itself
+            return self.store[('functor_at', v[1])], v
         if isinstance(v, tuple) and v and v[0] == 'initlist' and len(v) > 2:
             rec, items = v[2], v[1]
         elif isinstance(v, tuple) and v and v[0] == 'obj':
@@ -903,7 +1019,10 @@ class Sim:
         self.event({'kind': 'spin_begin', 'lambda': lam_key, 'line': call_node.get('line')})
         mark = len(self.path.events)
         for p, a in zip(lam['params'], args):
-            self.store[('var', p['did'], p['name'])] = a
+            if p.get('isref'):
+                self.store[('var', p['did'], p['name'])] = self.addr_of(self.lv_path(a))
+            else:
+                self.store[('var', p['did'], p['name'])] = a
         self.spin_depth += 1
         self.depth += 1
         saved_this = self.this_val
@@ -940,6 +1059,35 @@ class Sim:
         if getattr(self, 'cur_fn', None) is not None:
             self.event({'kind': 'cond', 'value': cond, 'outcome': outcome, 'line': line})
 
+    @staticmethod
+    def tmpl_shape(tmpl, sym):
+        return (tmpl[1], tmpl[3], 'l') if tmpl[2] == sym else (tmpl[1], tmpl[2], 'r')
+
+    def truth_of(self, cond):
+        """True / False when the condition folds to a constant or is decided by the path condition, else None"""
+        if cond is None:
+            return None
+        if is_const(cond):
+            return bool(cond[1])
+        return self.known(cond)
+
+    def cmp_templates(self):
+        """(operator, constant, side of the non-constant operand) of the comparisons with a constant on the path so far"""
+        out = []
+        for c, _, _ in self.path.conds:
+            while isinstance(c, tuple) and c and c[0] == 'not':
+                c = c[1]
+            if isinstance(c, tuple) and c and c[0] == 'op' and c[1] in CMP:
+                if is_const(c[3]) and not is_const(c[2]):
+                    t = (c[1], c[3], 'l')
+                elif is_const(c[2]) and not is_const(c[3]):
+                    t = (c[1], c[2], 'r')
+                else:
+                    continue
+                if t not in out:
+                    out.append(t)
+        return out[:12]
+
     def known(self, cond):
         cm = self.path.cond_map()
         if cond in cm:
@@ -965,6 +1113,8 @@ class Sim:
         headers = self.eng.loop_headers(fn)
         visits = {}
         first_visit_mark = {}
+        first_vals = {}      # header -> store snapshot at the first visit
+        loop_inv = {}        # header -> [(path, widened symbol, template over that symbol, outcome)] assumed at the last widening
         b = blocks[fn['entry']]
         exit_id = fn['exit']
         while True:
@@ -976,8 +1126,23 @@ class Sim:
                 pass
             elif visits[bid] == 1:
                 first_visit_mark[bid] = len(self.writes)
+                first_vals[bid] = dict(self.store)
             elif visits[bid] <= self.eng.max_header_visits:
+                # invariants assumed at the previous widening must be preserved by the iteration just analysed (inductive step)
+                failed = False
+                for (ip, isym, tmpl, outc) in loop_inv.get(bid, []):
+                    if self.truth_of(subst_val(tmpl, isym, self.store.get(ip))) is not outc:
+                        self.eng.inv_blacklist.add((fn['key'], bid, ip, self.tmpl_shape(tmpl, isym), outc))
+                        failed = True
+                if failed:
+                    self.eng.noninductive += 1
+                    self.eng.inv_retry = True
+                    raise Cut()
                 # widening: everything written since the first visit becomes unknown
+                new_inv = []
+                infer = self.eng.max_header_visits >= 3
+                prev_syms = {ip: isym for (ip, isym, _, _) in loop_inv.get(bid, [])}
+                templates = self.cmp_templates() if infer else []
                 for p in sorted(set(self.writes[first_visit_mark[bid]:]), key=repr):
                     if p[0] == 'objver':
                         continue
@@ -988,6 +1153,20 @@ class Sim:
                     if p in self.word_paths:
                         self.word_results.add(nv)
                         self.path.word_syms.add(nv)
+                    # loop invariants of the form `x cmp K` for comparisons that occur on the path: kept when they hold for the
+                    # value at loop entry and for the value after the iteration; the next visit re-checks them (above)
+                    base = first_vals[bid].get(p) if visits[bid] == 2 else prev_syms.get(p, self.last_widened.get((bid, p)))
+                    if infer and p[0] == 'var' and base is not None and old is not None and p not in self.word_paths:
+                        for (cmp_op, k, side) in templates:
+                            tmpl = ('op', cmp_op, nv, k, 1) if side == 'l' else ('op', cmp_op, k, nv, 1)
+                            t1 = self.truth_of(subst_val(tmpl, nv, base))
+                            t2 = self.truth_of(subst_val(tmpl, nv, old))
+                            if t1 is not None and t1 is t2 and (fn['key'], bid, p, (cmp_op, k, side), t1) not in self.eng.inv_blacklist:
+                                new_inv.append((p, nv, tmpl, t1))
+                    self.last_widened[(bid, p)] = nv
+                for (ip, isym, tmpl, outc) in new_inv:
+                    self.assume(tmpl, outc, None)
+                loop_inv[bid] = new_inv
             else:
                 raise Cut()
             if bid in headers:
@@ -998,6 +1177,15 @@ class Sim:
                 if k == 'stmt':
                     v = self.ev(e['e'])
                     self.vals[e['id']] = v
+                    if self.returned:
+                        break
+                elif k == 'init' and 'member' not in e and 'base' not in e and self.delegate_target(e, fn) is not None and self.depth < 4:
+                    # delegating constructor: the target constructor initialises this object
+                    cn = self.delegate_target(e, fn)
+                    tgt = self.facts.functions[cn['ctor']]
+                    vals_ = [self.ev(a) for a in cn['args']]
+                    if len(vals_) == len(tgt['params']):
+                        self.inline_call(tgt, vals_, cn, this_ptr=self.this_val)
                     if self.returned:
                         break
                 elif k == 'init':
@@ -1054,7 +1242,20 @@ class Sim:
         rl = self.ret_line
         (self.cur_fn, self.cur_elems, self.vals, self.decided, self.returned, self.ret, self.ret_line) = saved
         self.last_ret_line = rl
+        if ret == ('throw',) and self.depth > 0:
+            # an exception thrown by an inlined callee leaves the caller as well (no handler is modelled)
+            self.returned, self.ret, self.ret_line = True, ret, rl
         return ret
+
+    def delegate_target(self, e, fn):
+        cn = e.get('e') or {}
+        if cn.get('k') == 'ref':
+            cn = self.cur_elems.get(cn.get('id')) or {}
+        if cn.get('k') == 'construct' and cn.get('record') == fn.get('record') and not cn.get('copy_or_move'):
+            tgt = self.facts.functions.get(cn.get('ctor'))
+            if tgt is not None and tgt.get('blocks') and tgt['key'] != fn['key']:
+                return cn
+        return None
 
     def run(self):
         fn = self.fn
@@ -1086,6 +1287,9 @@ class Engine:
         self.facts = facts
         self.max_paths = max_paths
         self.max_header_visits = max_header_visits
+        self.noninductive = 0      # paths dropped because an inferred loop invariant was not preserved
+        self.inv_blacklist = set() # (function, loop header, location, template) of candidates found not to be inductive
+        self.inv_retry = False
         self._bm = {}
         self._em = {}
         self._spin = {}
@@ -1108,6 +1312,25 @@ class Engine:
         if self.anchors is None:
             return False
         return fn['key'] not in self.anchors and fn['key'] not in self.no_inline and not fn['short'].startswith('operator')
+
+    def tu_consts(self, tu):
+        if not hasattr(self, '_tuc'):
+            self._tuc = {}
+        if tu not in self._tuc:
+            try:
+                d = {c['q']: int(c['value']) for c in self.facts.tus[tu]['constants']}
+            except Exception:
+                d = {}
+            self._tuc[tu] = d
+        return self._tuc[tu]
+
+    def private_helper(self, fn):
+        """a helper that clients cannot call (a free function, or a private / protected member that is not an anchor):
+        it is analysed only in the context of its callers.  A non-anchor *public* member is inlined at its call sites
+        as well, but it is also analysed on its own (who-may-write rules apply to it: clients can call it)."""
+        if not self.inline_helper(fn):
+            return False
+        return fn.get('kind') == 'function' or fn.get('access') in (1, 2)
 
     def block_map(self, fn):
         k = fn['key']
@@ -1185,22 +1408,27 @@ class Engine:
                     is_call, rest = True, n['args'][1:]
                 elif n.get('k') == 'call' and n.get('callee') == '?' and self._is_var(n.get('fnexpr') or {}, p0['did']):
                     is_call, rest = True, n['args']
+                elif n.get('k') == 'call' and n.get('name') == 'std::invoke' and n['args'] and self._is_var(n['args'][0], p0['did']):
+                    is_call, rest = True, n['args'][1:]
                 if is_call:
                     want = [q['did'] for q in fn['params'][1:]]
-                    rest = [self._unwrap(a) for a in rest]
+                    rest = [self._unwrap(a, self.elem_map(fn)) for a in rest]
                     got = [a.get('did') for a in rest if a.get('k') == 'var']
                     if got != want or len(rest) != len(want):
                         return False, 'first parameter called with other arguments than the remaining parameters'
                     calls.append((b['id'], e['id']))
+                elif n.get('k') == 'mcall' and n.get('const_method') and str(n.get('method', '')).startswith('operator ') and not n.get('args') \
+                        and str(n.get('record', '')).startswith('std::reference_wrapper<'):
+                    pass      # std::reference_wrapper<T>::operator T&() of a forwarded argument
                 elif n.get('k') in ('mcall', 'new', 'delete', 'throw'):
                     return False, 'body has other effects (%s)' % n.get('k')
                 elif n.get('k') == 'call' and n.get('name') not in ('std::this_thread::sleep_for', '_mm_pause') and not n.get('builtin'):
                     return False, 'body calls %s' % n.get('name')
                 elif n.get('k') == 'opcall' and not (n.get('op') == '()'):
                     return False, 'body uses operator %s' % n.get('op')
-        if len(calls) != 1:
-            return False, 'first parameter is not called at exactly one site'
-        cb, cid = calls[0]
+        if not calls:
+            return False, 'first parameter is never called'
+        cids = {c[1] for c in calls}
         preds = {}
         for b in fn['blocks']:
             for i, s_ in enumerate(b['succs']):
@@ -1230,11 +1458,11 @@ class Engine:
                     c = c['e']
                 elif c.get('k') == 'un' and c.get('op') == '!':
                     sign, c = -sign, c['e']
-                elif c.get('k') == 'ref' and c.get('id') != cid and c.get('id') in elems:
+                elif c.get('k') == 'ref' and c.get('id') not in cids and c.get('id') in elems:
                     c = elems[c['id']]
                 else:
                     break
-            return sign if c.get('id') == cid else 0
+            return sign if c.get('id') in cids else 0
         entered = 0
         for r in list(region):
             for (pb, idx) in preds.get(r, []):
@@ -1249,22 +1477,31 @@ class Engine:
                 entered += 1
         if not entered:
             return False, 'no exit edge found'
-        seen, todo = set(), [x for x in blocks[cb]['succs'] if x is not None]
-        while todo:
-            x = todo.pop()
-            if x in seen:
-                continue
-            seen.add(x)
-            todo.extend(y for y in blocks[x]['succs'] if y is not None)
-        if cb not in seen:
+        in_loop = False
+        for cb, _ in calls:
+            seen, todo = set(), [x for x in blocks[cb]['succs'] if x is not None]
+            while todo:
+                x = todo.pop()
+                if x in seen:
+                    continue
+                seen.add(x)
+                todo.extend(y for y in blocks[x]['succs'] if y is not None)
+            in_loop = in_loop or cb in seen
+        if not in_loop:
             return False, 'procedure call is not in a loop'
-        return True, 'calls its first parameter in a loop and leaves only when the result is true'
+        return True, 'calls its first parameter in a loop and leaves only when a call returned true'
 
     @staticmethod
-    def _unwrap(a):
-        while a.get('k') == 'cast':
-            a = a['e']
-        return a
+    def _unwrap(a, elems=None):
+        while True:
+            if a.get('k') == 'cast':
+                a = a['e']
+            elif a.get('k') == 'ref' and elems and a.get('id') in elems:
+                a = elems[a['id']]
+            elif a.get('k') == 'mcall' and str(a.get('record', '')).startswith('std::reference_wrapper<') and not a.get('args'):
+                a = a['obj']
+            else:
+                return a
 
     def _is_var(self, a, did):
         a = self._unwrap(a)
@@ -1275,24 +1512,32 @@ class Engine:
         key = fn['key']
         if init_store is None and key in self._paths:
             return self._paths[key]
-        out, cuts, spin_fail = [], 0, []
-        stack = [()]
-        n = 0
-        while stack:
-            prefix = stack.pop()
-            n += 1
-            if n > self.max_paths:
-                raise AnalysisBroken('%s: more than %d paths' % (key, self.max_paths))
-            sim = Sim(self, fn, prefix, init_store)
-            p = sim.run()
-            for (pos, cnt) in sim.pending:
-                for alt in range(1, cnt):
-                    stack.append(tuple(sim.trace[:pos]) + (alt,))
-            spin_fail.extend(sim.spin_fail)
-            if p.end == 'cut':
-                cuts += 1
-            if p.end in keep:
-                out.append(p)
+        for attempt in range(12):
+            # loop invariants are inferred optimistically; one that an iteration does not preserve is black-listed and
+            # the function is explored again without it, until every assumed invariant is inductive
+            self.inv_retry = False
+            out, cuts, spin_fail = [], 0, []
+            stack = [()]
+            n = 0
+            while stack:
+                prefix = stack.pop()
+                n += 1
+                if n > self.max_paths:
+                    raise AnalysisBroken('%s: more than %d paths' % (key, self.max_paths))
+                sim = Sim(self, fn, prefix, init_store)
+                p = sim.run()
+                for (pos, cnt) in sim.pending:
+                    for alt in range(1, cnt):
+                        stack.append(tuple(sim.trace[:pos]) + (alt,))
+                spin_fail.extend(sim.spin_fail)
+                if p.end == 'cut':
+                    cuts += 1
+                if p.end in keep:
+                    out.append(p)
+            if not self.inv_retry:
+                break
+        else:
+            raise AnalysisBroken('%s: loop invariant inference does not stabilise' % key)
         res = {'paths': out, 'cuts': cuts, 'spin_fail': spin_fail, 'explored': n}
         if init_store is None:
             self._paths[key] = res
